@@ -236,5 +236,6 @@ class EntityContainer(Entity):
         if not isinstance(children, list):
             children = [children]
 
-        self._children = [child for child in self._children if child not in children]
-        self.workspace.remove_children(self, children)
+        removed = [child for child in children if child in self._children]
+        self._children = [child for child in self._children if child not in removed]
+        self.workspace.remove_children(self, removed)
